@@ -4,7 +4,7 @@
 cd /repo && git status --short | grep -q . && { echo "/repo not clean"; exit 1; }
 SCRATCH=$(mktemp -d /tmp/vr-regress.XXXX); cp /verif/known_findings.json $SCRATCH/
 missed=0
-for d in /verif/seeded/${1:-}*/; do
+for d in /verif/seeded/C${1:+${1#C}}*/; do
   name=$(basename $d); prop=${name:0:3}
   git -C /repo apply $d/patch.diff 2>/dev/null || { echo "$name: patch does not apply"; continue; }
   VERIF_ROOT=$SCRATCH timeout 1500 /verif/check $prop quick > $SCRATCH/$name.out 2>&1; rc=$?
